@@ -203,6 +203,20 @@ func (i *Index) Chunks(rid int, beg, end int) []bgzf.Chunk {
 	if rid < 0 || rid >= len(i.refs) {
 		return nil
 	}
+	// The interval is half open and lies in the range the index geometry
+	// covers: an empty or reversed interval overlaps nothing (and would
+	// make the bin enumeration wrap around), an end beyond the range is
+	// cut back to it.
+	max := int64(1<<63 - 1)
+	if s := i.minShift + i.depth*nextBinShift; s < 63 {
+		max = int64(1) << s
+	}
+	if beg < 0 || end <= beg || int64(beg) >= max {
+		return nil
+	}
+	if int64(end) > max {
+		end = int(max)
+	}
 	i.sort()
 	ref := i.refs[rid]
 
